@@ -1,13 +1,7 @@
 """Single source of truth for what is claimed (MANIFEST.json is generated from
 this by tools/gen_manifest.py)."""
 
-NOT_APPLICABLE = {
-    'C06': 'round-trip equality of runtime strings across the client and '
-           'server transformers (address quoting/encoding, parameter syntax, '
-           'extension strings, base64 headers); no structural necessary '
-           'condition beyond constant tables the unit tests already pin - '
-           'value-level, outside static analysis',
-}
+NOT_APPLICABLE = {}
 
 # claimed in DESIGN.md but whose check is not built yet (kept honest in the
 # manifest until the rule module exists and passes on the tree)
@@ -380,6 +374,36 @@ claim('C20',
       'analysis, value provenance of the body attribute, who-may-write, '
       'guard dominance on the CFG',
       'DESIGN.md §4 C20')
+
+claim('C06',
+      'Structural part only - what writer and reader must agree on for any '
+      'value to get through: (X1) the literals the SMTP client puts after '
+      'the verb (`FROM:<`, `TO:<`) are accepted by the server\'s '
+      'from_pattern / to_pattern (the regular-expression syntax tree is '
+      'interpreted on the literal) and the closing delimiter is the one the '
+      'server scans for; (X2) every MAIL parameter keyword the client '
+      'appends is matched whole by param_keyword_pattern, the alphabet of '
+      'what it can put behind `=` (xtext output computed from '
+      'xtext_pattern, digits, `<>`) lies inside the class of '
+      'param_value_pattern and contains neither `=` nor blanks, each '
+      'parameter is sent only under the extension that announces it and '
+      'UTF-8 only under SMTPUTF8 (guard dominance); (X3) the separators '
+      'Extensions.build_string writes are parsed back by parse_pattern / '
+      'line_pattern; (X4) HTTP transport: relay and edge agree role by '
+      'role on the header names, use the same base64 functions and text '
+      'codec, the edge\'s recipient splitter is disjoint from the base64 '
+      'alphabet, reply header and parameter names agree; (X5) recipients '
+      'are offered by a plain pass over envelope.recipients and appended / '
+      'rebuilt in arrival order. That every valid address and every body '
+      'comes out as it went in (the value-level round trip through '
+      '_encode / _xtext / find_outside_quotes / _gather_params, base64 and '
+      'the email package) is NOT decided.',
+      'Trusted: Python regex semantics as read off re._parser trees, '
+      'base64 alphabet, wsgiref Headers.add_header output format.',
+      'interpretation of regular-expression syntax trees on source '
+      'literals, character-class inclusion, constant-table agreement '
+      'between sibling implementations, guard dominance on the CFG',
+      'DESIGN.md §4 C06')
 
 
 def extend(pid, text, technique=None):
